@@ -19,11 +19,39 @@ static void check_matrix(const char* fac, int d, int k, const SU_vector& v, cons
   if (!ok) violation(std::string(fac) + ":matrix-mismatch", J().str("factory", fac).i("d", d).i("index", k).num("err", err).arr("components", comps(v)).done());
 }
 
+// Factory calls made while the program's namespace-scope objects are being initialised (a global table of constant
+// operators is ordinary use): recorded here, compared in main() with the reference matrices like every other call.
+struct EarlyCall { const char* fac; int d, k; std::vector<double> comps; int dim; bool threw; };
+static std::vector<EarlyCall> early_calls() {
+  std::vector<EarlyCall> r;
+  for (int d = 2; d <= 6; d++) {
+    auto rec = [&](const char* fac, int k, int which) { EarlyCall e{fac, d, k, {}, 0, false};
+      try { SU_vector v = which == 0 ? SU_vector::Identity(d) : which == 1 ? SU_vector::Projector(d, k) : which == 2 ? SU_vector::Generator(d, k) : which == 3 ? SU_vector::PosProjector(d, k) : SU_vector::NegProjector(d, k);
+        e.dim = v.Dim(); for (unsigned i = 0; i < v.Size(); i++) e.comps.push_back(v[i]); } catch (...) { e.threw = true; }
+      r.push_back(e); };
+    rec("Identity", 0, 0);
+    for (int i = 0; i < d; i++) { rec("Projector", i, 1); rec("PosProjector", i, 3); rec("NegProjector", i, 4); }
+    for (int k = 0; k < d * d; k++) rec("Generator", k, 2);
+  }
+  return r;
+}
+static const std::vector<EarlyCall> g_early = early_calls();
+
 // every factory call is preceded by a burst of unrelated library calls (vf::pollute): the factories must not depend on
 // anything an earlier call left behind
 #define F(call) ((dirty ? pollute(d) : (void)0), (call))
 int main(int argc, char** argv) {
   Args a = parse(argc, argv); quiet_gsl();
+  for (const EarlyCall& e : g_early) {
+    count("evaluations"); count("calls_during_static_initialisation");
+    int d = e.d; const ref::Basis& B = ref::basis(d); Mat want(d);
+    std::string f = e.fac;
+    if (f == "Identity") want = ref::eye(d); else if (f == "Projector") want = ref::E(d, e.k, e.k); else if (f == "Generator") want = B.lam[e.k];
+    else for (int i = 0; i < e.k; i++) { if (f == "PosProjector") want(i, i) = 1; else want(d - 1 - i, d - 1 - i) = 1; }
+    bool ok = !e.threw && e.dim == d && (int)e.comps.size() == d * d;
+    double err = ok ? ref::maxabs(B.tomat(e.comps) - want) : INFINITY;
+    if (!(err <= 4e-15)) violation(f + ":matrix-mismatch:called-during-static-initialisation", J().str("factory", e.fac).i("d", d).i("index", e.k).i("threw", e.threw).num("err", err).arr("components", e.comps).done());
+  }
   for (int pass = 0; pass < 2; pass++) for (int d = 2; d <= 6; d++) {
     bool dirty = pass == 1;
     const ref::Basis& B = ref::basis(d);
